@@ -122,3 +122,16 @@ Proof.
   unfold dumps, channels, cp_idx. rewrite <- Lt, <- Lf, <- Lb.
   repeat split; try apply nonzero_in_range; apply nonzero_from_increasing.
 Qed.
+
+(* v2 / v3 / v4: x[ix2] = dataset[stage 1 masks][ix2] under outer indexing -- the spec of C05's LazyIndexer and C04's
+   DaskLazyIndexer applied to the first-stage index that the format glue hands over *)
+Lemma single_dataset_two_stage c S s k ix2 : c_fmt c <> V1 ->
+  let x := acquire c s k in
+  exists n m, ix_rows x = [n] /\ ix_tmasks x = [m]
+    /\ index S x ix2 = (a1 <- oindex_keep (mk_nd (n :: ix_dims x) S) (map AMask (m :: ix_tail x)) ;; oindex_keep a1 ix2).
+Proof.
+  intros Hf x. unfold x, acquire, index.
+  destruct (c_fmt c); [congruence| | |]; destruct k; cbn [ix_rows ix_tmasks ix_dims ix_tail];
+    eexists; eexists; (split; [reflexivity|]); (split; [reflexivity|]);
+    erewrite single_part_is_outer_indexing by reflexivity; reflexivity.
+Qed.
